@@ -15,9 +15,14 @@ def attribute(run, line, verdict):
     started = {e["u"] for e in upto if e.get("e") == "Start"}
     finished = {e["u"] for e in upto if e.get("e") in ("Finish", "Exit")}
     cancelled = {e["u"] for e in upto if e.get("e") == "Cancel"}
+    scn = evs[0].get("scn", "exec")
     if line:
         ev = evs[line - 1]
         k = ev.get("e")
+        if k in ("MigReq", "MigRet", "MigCb", "MigCount") or (k == "Back" and "pool" in ev):
+            return "C13"
+        if k in ("Prim", "Run", "Obs"):
+            return "C11"
         if k in ("Start", "Create", "CreateRet", "Finish"):
             # a second start after revive belongs to the life cycle
             revived = {e["u"] for e in upto if e.get("e") == "Revive"}
@@ -39,6 +44,10 @@ def attribute(run, line, verdict):
             return "C01" if (created - started - cancelled) else "C12"
         return "C01"
     # unfinished run (deadlock / stuck / budget / crash): look at what is pending
+    if scn in ("migrate", "migrace"):
+        return "C13"
+    if scn == "switch":
+        return "C11"
     pend_join = None
     for e in evs:
         if e.get("e") in ("JoinCall", "FreeCall"):
@@ -76,26 +85,32 @@ def attribute(run, line, verdict):
     return "C01"
 
 
-def run_exec(pid, tier, seed, emphasis):
+def run_exec(pid, tier, seed, emphasis, scns=("exec",)):
     chk = vlib.Check(pid, tier, seed)
     quick = tier == "quick"
-    vlib.tlc_check(chk, "H_Exec abstract life cycle, exhaustive (3 units)", os.path.join(SPEC, "H_ExecMC.tla"),
+    vlib.tlc_check(chk, "H_Exec abstract life cycle, exhaustive (2 units)", os.path.join(SPEC, "H_ExecMC.tla"),
                    os.path.join(SPEC, "H_ExecMC.cfg"), timeout=600)
+    vlib.tlc_check(chk, "H_Exec with migration, exhaustive (1 unit, 2 pools)", os.path.join(SPEC, "H_ExecMC.tla"),
+                   os.path.join(SPEC, "H_ExecMC2.cfg"), timeout=600)
     exe = vlib.build_driver("d_kernel")
     n = 250 if quick else 4000
     per = 50 if quick else 250
     jobs = []
-    for cfg in range(6):
-        for nes in (0, 1, 2):
-            for off in range(0, n, per):
-                jobs.append(dict(exe=exe, scn="exec", seed0=seed * 1000000 + emphasis * 100000 + 1 + off,
-                                 count=min(per, n - off), opts=("nes=%d" % nes, "cfg=%d" % cfg),
-                                 env={"ABTV_BUDGET": "400000"}))
-    if not quick:
+    n = max(per, n // len(scns))
+    for scn in scns:
         for cfg in range(6):
-            for nes in (1, 2):
-                jobs.append(dict(exe=exe, scn="exec", seed0=seed * 1000000 + 700001, count=300,
-                                 opts=("nes=%d" % nes, "cfg=%d" % cfg), mode="free", env={"ABTV_PERTURB": "1"}, timeout=900))
+            for nes in (0, 1, 2):
+                if scn == "migrace" and (nes < 2 or cfg):
+                    continue
+                for off in range(0, n, per):
+                    jobs.append(dict(exe=exe, scn=scn, seed0=seed * 1000000 + emphasis * 100000 + 1 + off,
+                                     count=min(per, n - off), opts=("nes=%d" % nes, "cfg=%d" % cfg),
+                                     env={"ABTV_BUDGET": "400000"}))
+        if not quick:
+            for cfg in range(6):
+                for nes in (1, 2):
+                    jobs.append(dict(exe=exe, scn=scn, seed0=seed * 1000000 + 700001, count=300,
+                                     opts=("nes=%d" % nes, "cfg=%d" % cfg), mode="free", env={"ABTV_PERTURB": "1"}, timeout=900))
     runs = vlib.sweep(jobs)
     chk.evaluations = len(runs)
     others = {}
